@@ -6,8 +6,8 @@ TITLE = "All generated artifacts are syntactically valid and import-closed"
 TRANSLATORS = []
 LEAN_MODULES = ["IsoVerif.Props.C13"]
 THEOREMS = ["IsoVerif.Props.C13." + t for t in (
-    "C13_holes_partial", "C13_holes_desc", "C13_holes_strDouble", "C13_holes_name", "C13_holes_lexState",
-    "C13_witness_single_quote", "C13_witness_header_cr", "C13_witness_path_quote", "C13_fixed_witness_F13b",
+    "C13_holes_partial", "C13_holes_desc", "C13_holes_strSingle", "C13_holes_strDouble", "C13_holes_name", "C13_holes_lexState",
+    "C13_witness_header_cr", "C13_witness_path_quote", "C13_fixed_witness_F13b", "C13_fixed_witness_F13",
     "C13_imports_template", "C13_imports_resolver", "C13_imports",
     "C13_witness_unclosed_parameters_type", "C13_witness_unclosed_link_output_type")]
 HARNESS = ("hx_arts", {"HX_ENGINE": "arts"})
@@ -20,9 +20,9 @@ TECHNIQUE = ("Lean 4: a TypeScript lexical-context automaton (code, '…', \"…
              "compiles a project with the text in the hole and cuts the embedded text out of the real artifact again (= the model's embedding function); engine `arts` reads every import specifier back from "
              "the implementation's artifacts and resolves it (= the model's resolve). External oracle on every artifact of every compiled generated project under all 48 option combinations: "
              "swc_ecma_parser (TypeScript module) for .ts, serde_json for .json, every relative import must name a generated artifact or the source file")
-LEVEL_TEXT = ("Kernel-checked: schema descriptions (every text, after fix ce7cb8c), string arguments in double-quoted positions and names never leave their lexical context and leave the automaton in the "
-              "state they found it (C13_holes_desc/strDouble/name), hence do not change the lexical reading of anything after the hole (C13_holes_lexState); for the single-quoted operation text, the "
-              "generated file header and the resolver import path the same holds under the stated `safe` condition (C13_holes_partial) and is FALSE without it (three witnesses = open findings). Every "
+LEVEL_TEXT = ("Kernel-checked: schema descriptions (every text, after fix ce7cb8c), string arguments in the single-quoted operation text (after fix dc59a0f) and in double-quoted positions, and names never leave "
+              "their lexical context and leave the automaton in the state they found it (C13_holes_desc/strSingle/strDouble/name), hence do not change the lexical reading of anything after the hole "
+              "(C13_holes_lexState); for the generated file header and the resolver import path the same holds under the stated `safe` condition (C13_holes_partial) and is FALSE without it (two witnesses = open findings). Every "
               "import template resolves, from every place it is printed, to the file it is meant to name, with and without `.ts` in the specifier, and pathdiff's relative path resolves back to the "
               "source file (C13_imports_template, C13_imports_resolver); in a closed plan every import names a generated file (C13_imports). That every artifact is a TypeScript module / JSON is established "
               "by the external parsers on every artifact of every compiled generated project, not by a theorem.")
@@ -32,7 +32,7 @@ LEVEL_NOTE = ("Trusted: Lean kernel; swc_ecma_parser 3.0 (TypeScript syntax) and
 PARTIAL = ["that the SKELETONS of the artifacts are valid TypeScript/JSON is established by the external parsers on generated programs (and the three demos), not by a theorem",
            "C13_imports assumes a closed plan; which files the real generator emits for which declarations is not modelled — closure is checked by the oracle on every compiled project (open findings: "
            "param_type.ts → ./parameters_type of unreachable fields with variables; iso.ts → ./<Target>/__link/output_type)",
-           "C13_holes is false for an apostrophe in string arguments (F13), for CR/U+2028/U+2029 in generated_file_header and for '/\\ in source file names: witnesses, open findings, `safe` hypothesis"]
+           "C13_holes is false for CR/U+2028/U+2029 in generated_file_header and for '/\\ in source file names: witnesses, open findings, `safe` hypothesis"]
 ASSUMPTIONS = ["ECMAScript lexical grammar for strings, comments and line terminators as transcribed in Model/TsLex.lean",
                "a relative specifier is resolved against the directory of the importing file; an extension-less specifier names <spec>.ts"]
 
